@@ -303,7 +303,7 @@ func ToCommandLine(wf WireFormat, resolveIds bool) (rule string, err error) {
 				if value <= math.MaxUint16 {
 					rhs = auparse.AuditMessageType(value).String()
 				} else {
-					rhs = fmt.Sprintf("UNKNOWN[%d]", value)
+					rhs = strconv.FormatUint(uint64(value), 10)
 				}
 			case permField:
 				rhs = permission(value).String()
